@@ -115,6 +115,25 @@ def run(ctx):
                     sides.append((from_key, from_src))
                 if any(k for k, _ in sides) and any(s for _, s in sides):
                     checks.append((blk, c, t))
+            if not checks:
+                # a table of credentials compared inside an iterator adapter (`self.keys.iter().any(|k| *k == key[..])`): the check is the
+                # bool the adapter returns; the comparison itself sits in the closure
+                for (blk, c, t) in b.calls():
+                    if blk not in region or c.method not in ("any", "position", "find", "contains", "all") or not t["args"]:
+                        continue
+                    rp = op_place(t["args"][0])
+                    rlocs = b.slice_back([rp[0]])[0] if rp is not None else set()
+                    from_table = False
+                    for l in rlocs:
+                        for d in b.defs().get(l, []):
+                            if d[0] == "assign" and d[3]["rv"]["k"] == "ref":
+                                pp = d[3]["rv"]["p"]
+                                if _is_self(b, pp[0]) and any(e[0] == "field" for e in pp[1]) and "[u8; 28]" in b.local_ty(d[3]["p"][0]):
+                                    from_table = True
+                    clos = [a.get("d") for a in c.args if a.get("d") and "closure" in a.get("d", "")]
+                    cmp_in_closure = any(prog.body(d_) is not None and any(cc.name in ("PartialEq::eq", "PartialEq::ne") for (_, cc, _) in prog.body(d_).calls()) for d_ in clos)
+                    if from_table and (cmp_in_closure or c.method == "contains"):
+                        checks.append((blk, Callee({"path": "core::cmp::PartialEq::eq", "trait": "core::cmp::PartialEq", "method": "eq", "args": []}) if c.method != "all" else c, t))
             ctx.floor("A1", "trojan credential comparison", 1, len(checks))
             for (blk, c, t) in checks:
                 gates = [g for g in gates_of_value(b, t["dest"][0]) if g.kind == "bool"]
@@ -132,6 +151,22 @@ def run(ctx):
                         ok = edge_dom(prog, b, g.block, eq_t, wb)
                         ctx.ob("A1", b.defp, "trojan:state-transition-behind-password-check", loc(sp) if sp else loc(b.sp), ok, "state leaves Header only behind the password-equal edge" if ok else "the codec can leave its initial state without the password check")
             # the key field is SHA-224(password): checked in C03-S1
+            # ... and a *table* of credentials must hold nothing but such hashes: a table created with placeholder entries (`vec![[0; 28]; n]`)
+            # and then extended keeps the placeholders, and the all-zero "hash" (56 hex zeros) becomes a working credential
+            for cb_ in bodies:
+                if not cb_.defp.startswith("octo_squirrel_server") or cb_.root != cb_.defp:
+                    continue
+                builds = any(s_["k"] == "assign" and s_["rv"]["k"] == "agg" and s_["rv"].get("def") == b0.impl_self_def for blk_ in cb_.rpo() for s_ in cb_.stmts(blk_))
+                if not builds:
+                    continue
+                for (blk_, c_, t_) in cb_.calls():
+                    if c_.target.endswith("vec::from_elem") and "[u8; 28]" in " ".join(a.get("s", "") for a in c_.args):
+                        k_ = t_["args"][1] if len(t_["args"]) > 1 else None
+                        nonzero_len = not (k_ is not None and op_int(k_) == 0)
+                        ctx.ob("A1", cb_.defp, "trojan:credential-table-has-no-placeholders", loc(t_["sp"]), not nonzero_len,
+                               "the credential table starts empty" if not nonzero_len else
+                               "the credential table is created with placeholder (all-zero) entries: unless every slot is overwritten, the placeholder is itself "
+                               "an accepted credential (a handshake of 56 hex zeros is relayed)")
         elif "vmess" in b.defp:
             sw, region = initial_arm_region(b, "decode_state")
             if sw is None:
@@ -215,7 +250,8 @@ def run(ctx):
     # ---------------- A2 user lookups -----------------------------------------------------------
     # roles: the user registry = the struct that owns a map keyed by the 16-byte identity hash; a lookup = one of its methods that takes a
     # `&[u8; 16]` and returns an Option; the user type = what the map stores; "how many users" = its usize-returning method
-    registry = [it for it in prog.items if it["k"] == "struct" and any("HashMap<[u8; 16]" in fty.replace("std::collections::", "") or ("HashMap<" in fty and "[u8; 16]" in fty) for (_, fty) in it["fields"])]
+    registry = [it for it in prog.items if it["k"] == "struct" and "::test" not in it["path"] and
+                any(re.search(r"HashMap<\[u8; [^\]]+\], (?:std::sync::)?(?:Arc<)?[A-Za-z_:]*[A-Z]", fty) for (_, fty) in it["fields"])]
     reg_paths = {it["path"] for it in registry}
     ctx.floor("A2", "user registry type (map keyed by the identity hash)", 1, len(registry))
     lookup_fns = {b.defp for b in bodies if (b.impl_self_def or "") in reg_paths and b.root == b.defp and "Option<" in b.local_ty(0) and b.argc == 2 and
@@ -224,7 +260,7 @@ def run(ctx):
     user_ty = set()
     for it in registry:
         for (_, fty) in it["fields"]:
-            m_ = re.search(r"HashMap<\[u8; 16\], (?:std::sync::)?(?:Arc<)?([A-Za-z0-9_:]+)", fty)
+            m_ = re.search(r"HashMap<\[u8; [^\]]+\], (?:std::sync::)?(?:Arc<)?([A-Za-z0-9_:]+)", fty)
             if m_:
                 user_ty.add(last_seg(m_.group(1)))
 
